@@ -49,6 +49,12 @@ func (w *recWriter) Write(v []byte) {
 }
 func (w *recWriter) NeedPrefix() bool { return w.prefix }
 
+// nullWriter takes the framework's own log lines (TLOG), which are not judged
+type nullWriter struct{}
+
+func (nullWriter) Write(v []byte)   {}
+func (nullWriter) NeedPrefix() bool { return true }
+
 func shorten(s string) string {
 	if i := strings.LastIndex(s, "|"); i >= 0 {
 		return s[i+1:]
@@ -69,6 +75,7 @@ type cfg struct {
 	Gap        int  // ms between the panics
 	SlowMs     int  // with Slow: every Write takes this long on the virtual clock; the cached one-second clock (gtime) runs
 	StartMs    int  // the scenario starts this far into a second of the virtual clock
+	Graceful   bool // instead of calling FlushLogger: the application's graceful shutdown (a servant's Destroy hook logs Late entries), then Run's deferred flush
 	ViaInvoke  bool // with Panics: the panic happens in a servant implementation called through the real Protocol.Invoke
 }
 
@@ -88,6 +95,9 @@ func (c cfg) name() string {
 			via = " in a servant implementation under Protocol.Invoke"
 		}
 		return fmt.Sprintf("CheckPanic panics=%d gap=%dms G=%d E=%d pre=%d raw=%v cap=%d%s", c.Panics, c.Gap, c.G, c.E, c.Pre, c.Raw, c.QueueCap, via)
+	}
+	if c.Graceful {
+		return fmt.Sprintf("graceful shutdown of the application, then Run's deferred flush: pre=%d destroy-hook-entries=%d raw=%v cap=%d", c.Pre, c.Late, c.Raw, c.QueueCap)
 	}
 	if c.SlowMs > 0 {
 		return fmt.Sprintf("rogger G=%d E=%d pre=%d raw=%v cap=%d writer takes %dms, start %dms into a second, cached clock running", c.G, c.E, c.Pre, c.Raw, c.QueueCap, c.SlowMs, c.StartMs)
@@ -117,7 +127,7 @@ func scenario(c cfg) *vm.Scenario {
 	}
 	sc.Main = func() {
 		var proto *tars.Protocol
-		if c.ViaInvoke {
+		if c.ViaInvoke || c.Graceful {
 			tars.VerifNewApp()
 		}
 		if c.SlowMs > 0 {
@@ -128,6 +138,7 @@ func scenario(c cfg) *vm.Scenario {
 		}
 		rogger.VerifResetCap(c.QueueCap)
 		rogger.SetLevel(rogger.DEBUG)
+		tars.TLOG.SetWriter(nullWriter{})
 		lg := rogger.GetLogger("a")
 		lg.SetWriter(w1)
 		lg2 := lg
@@ -216,6 +227,20 @@ func scenario(c cfg) *vm.Scenario {
 			vm.Sleep(int64(10 * time.Second)) // the process must have exited long before
 			return
 		}
+		if c.Graceful {
+			flushStart = vm.Now()
+			tars.VerifGracefulExit(func() {
+				for e := 0; e < c.Late; e++ {
+					m := fmt.Sprintf("<g9-e%d>", e)
+					emit(lg, m)
+					required = append(required, m)
+				}
+			})
+			flushEnd = vm.Now()
+			vm.Log("exit")
+			snapshot = append(append([]string{}, w1.recs...), w2.recs...)
+			return
+		}
 		if c.Late > 0 {
 			vm.GoNamed("late", func() {
 				for e := 0; e < c.Late; e++ {
@@ -274,7 +299,7 @@ func scenario(c cfg) *vm.Scenario {
 			}
 		}
 		if r.Status == vm.StOK && c.Panics == 0 {
-			if flushEnd-flushStart >= int64(time.Second) {
+			if flushEnd-flushStart >= int64(time.Second) && !c.Graceful {
 				msgs = append(msgs, "flush-ran-into-its-timeout")
 			}
 			lost, dup := 0, 0
@@ -379,6 +404,9 @@ func main() {
 			add(cfg{Pre: 3, Raw: raw, Slow: true, SlowMs: 300, StartMs: st}, 1, b)
 		}
 		add(cfg{G: 1, E: 2, Pre: 1, Raw: raw, Slow: true, SlowMs: 300, StartMs: 500}, 1, b)
+		// the flush at the end of a graceful shutdown (entries logged by a Destroy hook during the grace period)
+		add(cfg{Graceful: true, Pre: 1, Late: 1, Raw: raw}, -1, b)
+		add(cfg{Graceful: true, Pre: 2, Late: 2, Raw: raw, QueueCap: 2}, 2, b)
 		// the panic happens in a servant implementation, reached through the real Protocol.Invoke
 		add(cfg{Panics: 1, Pre: 2, Raw: raw, ViaInvoke: true}, -1, b)
 		add(cfg{Panics: 2, Pre: 1, Gap: 5, Raw: raw, ViaInvoke: true}, 2, b)
